@@ -294,3 +294,38 @@ def _sighash_case(tx_witness, arg_witness):
 
 DISPATCH_CASES = [_sighash_case(a, b)._contract.key for a, b in [('segwit', None), ('segwit', 'segwit'), ('segwit', 'p2sh-segwit'),
                                                                  ('segwit', 'legacy'), ('legacy', None), ('legacy', 'legacy')]]
+
+
+# ---------------------------------------------------------------------------------------------------
+# C06: full serialisation Transaction.raw() (sign_id None) against spec.wire.ser_tx, bounded in the counts (unrolled), every
+# field symbolic.  Witness items and scripts of any length.
+
+def _full_case(n_in, n_out, segwit, n_wit):
+    name = 'full-%s-in%d-out%d%s' % ('segwit' if segwit else 'legacy', n_in, n_out, ('-wit%d' % n_wit) if segwit else '')
+    InT = RecordOf(Input, prev_txid=Bytes(32), output_n=Bytes(4), sequence=Int(0, 2 ** 32 - 1), script_type=Const('sig_pubkey'),
+                   witness_type=Const('segwit' if segwit else 'legacy'), unlocking_script=Bytes(max=10000),
+                   witnesses=FixedList(Bytes(max=10000), n_wit if segwit else 0), index_n=Int(0, 10))
+    TxT = RecordOf(Transaction, version=Bytes(4), locktime=Int(0, 2 ** 32 - 1), witness_type=Const('segwit' if segwit else 'legacy'), size=Const(1),
+                   inputs=FixedList(InT, n_in), outputs=FixedList(_OutRec, n_out))
+
+    def view(self):
+        ins = [(x.prev_txid[::-1], int.from_bytes(x.output_n, 'big'), x.unlocking_script, x.sequence, x.witnesses) for x in self.inputs]
+        return int.from_bytes(self.version, 'big'), ins, _abstract_outputs(self), self.locktime
+
+    def result_is(self):
+        v, ins, outs, lt = view(self)
+        return wire.ser_tx(v, ins, outs, lt, segwit)
+
+    def pin_varstr(self, result):
+        v, ins, outs, lt = view(self)
+        return result == wire.ser_tx(v, ins, outs, lt, segwit, sighash.varstr_as_observed)
+
+    d = {'params': {'self': TxT}, 'kwargs': {'sign_id': None, 'witness_type': None}, 'result_is': result_is, 'pins': {'F-varstr-00': pin_varstr},
+         'native_skip': True,
+         '__doc__': 'Transaction.raw() of a %s transaction with %d inputs%s and %d outputs is the wire serialisation (BIP144 when segwit)'
+                    % ('segwit' if segwit else 'legacy', n_in, (' with %d witness items each' % n_wit) if segwit else '', n_out)}
+    return contract('bitcoinlib.transactions.Transaction.raw', case=name, props=('C06',))(type(name.replace('-', '_'), (), d))
+
+
+FULL_CASES = ([_full_case(a, b, False, 0)._contract.key for a in (1, 2) for b in (1, 2)]
+              + [_full_case(a, b, True, w)._contract.key for a in (1, 2) for b in (1, 2) for w in (1, 2)])
